@@ -24,13 +24,18 @@ ASSUMPTIONS = ["pre-states are built through the public API by a canonical recip
 def _check_op(cname, spec, fl, op, k):
     g = fam.flavour(gl.build(spec), fl)
     m = gl.model_from_spec(spec)
+    return check_op_on(g, m, op, cname, f"pre-state {fam.FLAVOURS[fl]}")
+
+
+def check_op_on(g, m, op, cname, what="pre-state"):
+    """g: real graph, m: reference model claimed to describe it; run `op` on both and compare."""
     s0 = gl.snap(g)
     d = gl.diff(s0, m.snap())
     if d:
-        return f"pre-state {fam.FLAVOURS[fl]} disagrees with model: {d}"
+        return f"{what} disagrees with model: {d}"
     c = gl.coherent(g)
     if c:
-        return f"pre-state {fam.FLAVOURS[fl]} incoherent: {c}"
+        return f"{what} incoherent: {c}"
     raised = None
     try:
         op.real(g)
@@ -39,37 +44,37 @@ def _check_op(cname, spec, fl, op, k):
     try:
         s1 = gl.snap(g)
     except Exception as e:
-        return f"after {op}: views unreadable: {type(e).__name__}: {e}"
+        return f"{what}, after {op}: views unreadable: {type(e).__name__}: {e}"
     if op.model is None:  # read-only query
         d = gl.diff(s0, s1)
         if d:
-            return f"read-only {op} changed a view ({'raised ' + type(raised).__name__ if raised else 'returned'}): {d}"
+            return f"{what}: read-only {op} changed a view ({'raised ' + type(raised).__name__ if raised else 'returned'}): {d}"
     else:
         expect, m2 = fam.apply_model(m, op)
         if expect == "reject":
             if raised is None:
                 d = gl.diff(s0, s1)
-                return f"ill-formed {op} was accepted" + (f" and changed: {d}" if d else " (no exception)")
+                return f"{what}: ill-formed {op} was accepted" + (f" and changed: {d}" if d else " (no exception)")
             d = gl.diff(s0, s1)
             if d:
-                return f"rejected {op} ({type(raised).__name__}) changed a view: {d}"
+                return f"{what}: rejected {op} ({type(raised).__name__}) changed a view: {d}"
         elif expect == "either":
             d = gl.diff(s0, s1)
             if d:
-                return f"{op} (no effect expected, raised={type(raised).__name__ if raised else None}) changed a view: {d}"
+                return f"{what}: {op} (no effect expected, raised={type(raised).__name__ if raised else None}) changed a view: {d}"
         else:
             if raised is not None:
                 d = gl.diff(s0, s1)
-                return f"well-formed {op} raised {type(raised).__name__}: {raised}" + (f" and changed: {d}" if d else "")
+                return f"{what}: well-formed {op} raised {type(raised).__name__}: {raised}" + (f" and changed: {d}" if d else "")
             exp = m2.snap()
             d = gl.diff(s1, exp)
             if d and op.name == "remove_atom" and cname == "SCRG":
                 d = gl.diff(s1, gl.purge_changes_variants(exp, op.args[0]))
             if d:
-                return f"after {op}: {d}"
+                return f"{what}, after {op}: {d}"
     c = gl.coherent(g)
     if c:
-        return f"after {op} ({'raised ' + type(raised).__name__ if raised else 'ok'}): {c}"
+        return f"{what}, after {op} ({'raised ' + type(raised).__name__ if raised else 'ok'}): {c}"
     return None
 
 
